@@ -241,6 +241,11 @@ func (s *authzServer) validateAccessTokenRequest(ctx context.Context, bearerToke
 	if validationCtx.jwtBearerToken.Expiration().Sub(validationCtx.jwtBearerToken.IssuedAt()).Seconds() > BearerTokenMaxValidity {
 		return validationCtx, errors.New("JWT validity too long")
 	}
+	// The maximum validity only limits the time a grant can be used if the grant is refused after its expiration.
+	// That is checked here, and not left to the JWT library: it regards "exp": 0 as 'no expiration'.
+	if expiration := validationCtx.jwtBearerToken.Expiration(); expiration.Before(validationCtx.jwtBearerToken.IssuedAt()) || time.Now().After(expiration.Add(s.clockSkew)) {
+		return validationCtx, errors.New("JWT is expired")
+	}
 
 	// check the requester against the registry, according to RFC003 §5.2.1.3
 	// checks signing certificate and sets vendor, requesterName in validationContext
